@@ -27,6 +27,8 @@ def _tag_src(e):
     return None
   if isinstance(e, ast.IfExp) and astu.is_const(e.orelse, None):
     return astu.src(e.body)
+  if isinstance(e, ast.IfExp) and astu.is_const(e.body, None):
+    return astu.src(e.orelse)
   if astu.is_const(e, None):
     return None
   return astu.src(e)
